@@ -69,7 +69,8 @@ CLAIMED = {
         design="4/C08"),
     "C09": dict(
         text="Coq theorems over executable models of declast.Parser.pointer/declarator (Model/Decl.v) and the unparser "
-             "Ptr/Declarator/Declaration.gen_decl_work (Model/Render.v): every pointer/reference chain with const/volatile at "
+             "Ptr/Declarator/Declaration.gen_decl_work (Model/Render.v): a run of type words / cv-qualifiers / storage classes in any order is "
+             "recorded in written order with each qualifier wherever it stands; every pointer/reference chain with const/volatile at "
              "every level, and every declarator to any nesting depth, is recorded exactly as written (token level, unbounded); the "
              "C rendering of a declarator is the rendering of its pointer form. Table theorems over regenerated tables: every "
              "accepted list of type-specifier words (complete to 4 words, longer never accepted) denotes by the C++ rules the "
